@@ -1,8 +1,8 @@
 #!/usr/bin/env bash
-# tools/ctl_all.sh : run every independent negative control (controls/*) against the checks that exercise the
+# tools/ctl_all.sh [glob, e.g. "C*-x*"] : run every independent negative control (controls/*) against the checks that exercise the
 # source files its patch touches (plus the check of the property it was written for).
 cd "$(dirname "$0")/.."
-for d in controls/C*; do
+for d in controls/${1:-C*}; do
   own=$(basename $d | cut -d- -f1)
   ids="$own"
   files=$(grep '^+++ b/' $d/patch.diff | sed 's#+++ b/##')
